@@ -469,6 +469,8 @@ class _Obs:
             return
         if isinstance(node.ctx, ast.Store):
             return
+        if isinstance(p, ast.Call) and isinstance(p.func, ast.Name) and p.func.id in ("getattr", "hasattr") and p.args and p.args[0] is node:
+            return  # handled attribute-wise by the getattr branch
         ts = self.slot_type(slot)
         if ts & {"Circuit", "Unitary"}:
             for o in ("U_full", "heralds"):
